@@ -180,6 +180,47 @@ def check_lzma(inp):
       return 'a later call did not repair the decompressed file'
 
 
+def check_lzma_truncated(inp):
+  """A compressed file that ends early (an interrupted copy of the archive): decompression fails, nothing appears under the
+  final name, and with the complete archive a later call produces the complete file."""
+  size, cut = inp['size'], inp['cut']
+  content = payload_of(size)
+  with tempfile.TemporaryDirectory() as d:
+    src = os.path.join(d, 'data.bin.lzma')
+    with lzma.open(src, 'wb') as f:
+      f.write(content)
+    full = open(src, 'rb').read()
+    final = os.path.join(d, 'data.bin')
+    k = max(0, min(len(full) - 1, int(cut * len(full)) if isinstance(cut, float) else cut))
+    for _ in range(inp.get('repeat', 1)):
+      with open(src, 'wb') as f:
+        f.write(full[:k])
+      try:
+        downloads.maybe_lzma_decompress(src)
+        returned = True
+      except Exception:  # pylint: disable=broad-except
+        returned = False
+      if os.path.exists(final) and open(final, 'rb').read() != content:
+        return (f'an archive cut after {k} of {len(full)} bytes: maybe_lzma_decompress {"returned" if returned else "raised"} and '
+                f'left {os.path.getsize(final)} of {size} bytes under the final name')
+    with open(src, 'wb') as f:
+      f.write(full)
+    try:
+      got = downloads.maybe_lzma_decompress(src)
+    except Exception as e:  # pylint: disable=broad-except
+      return f'with the complete archive a later call fails: {type(e).__name__}: {e}'
+    if got != final or open(final, 'rb').read() != content:
+      return (f'after a truncated archive (cut at {k} of {len(full)} bytes) a later call with the complete archive returns '
+              f'{os.path.getsize(final)} of {size} bytes: the truncated output was cached')
+
+
+def sweep_lzma_truncated(tier, seed):
+  for size in (1, 1000, (1 << 18) + 17, 3 * (1 << 18) + 17):
+    for cut in (0, 1, 0.5, 0.9, 10 ** 9):
+      yield dict(size=size, cut=cut)
+    yield dict(size=size, cut=0.5, repeat=2)
+
+
 def sweep_lzma(tier, seed):
   for size in (0, 1, 1000, 1 << 20):
     yield dict(size=size, fail_after=None)
@@ -323,7 +364,7 @@ def sweep_cifar(tier, seed):
 
 CHECKERS = {'download': (check_download, sweep_download), 'lzma': (check_lzma, sweep_lzma),
             'validate': (check_validate, lambda t, s: [dict(size=0), dict(size=10)]),
-            'cifar': (check_cifar, sweep_cifar)}
+            'cifar': (check_cifar, sweep_cifar), 'lzma_truncated': (check_lzma_truncated, sweep_lzma_truncated)}
 
 if __name__ == '__main__':
   sys.exit(common.main(CHECKERS))
